@@ -52,6 +52,9 @@ type Op struct {
 	// that this frame leaves out: a writer may send frames that carry only some of its
 	// channels, and so only reach some of its leaseholders.
 	Skip []uint32 `json:"skip,omitempty"`
+	// Masked: the left-out groups are physically in the frame and excluded with
+	// Frame.ExcludeKeys (a frame filtered by its producer) instead of not being in it.
+	Masked bool `json:"masked,omitempty"`
 	// read
 	A int64 `json:"a,omitempty"`
 	B int64 `json:"b,omitempty"`
@@ -530,6 +533,7 @@ func genScript(t *rapid.T) Script {
 							op.Skip = append(op.Skip, u)
 						}
 					}
+					op.Masked = len(op.Skip) > 0 && rapid.IntRange(0, 2).Draw(t, "masked") == 0
 				}
 			}
 			st.ApplyWrite(op)
